@@ -34,6 +34,7 @@ Step(r) ==
      [] r.op = "cpdelete" -> CopyDel(r.k) /\ ok' = (r.err = "")
      [] r.op = "cpget"    -> CopyGet(r.k) /\ ok' = (r.err = "" /\ last'.res = V(r.val))
      [] r.op = "cpiter"   -> CopyIter(r.p, r.rev) /\ ok' = (r.err = "" /\ last'.res = Pairs(r.items))
+     [] r.op = "rollback" -> Rollback(r.ver) /\ ok' = (r.err = "")
      [] r.op = "maint"    -> UNCHANGED vars /\ ok' = (r.err = "")     \* memtable flush / compaction: no logical effect
 
 TraceNext == l <= Len(Trace) /\ l' = l + 1 /\ Step(Trace[l]) /\ TLCSet(1, l)
